@@ -115,15 +115,145 @@ func (g *c01Gen) genAssign(s *c01Scope) *c01Node {
 	return &c01Node{op: "opassign", x: v, bop: ops[g.pick(3)], args: []*c01Node{g.genInt(s, k, 1)}}
 }
 
-func (g *c01Gen) genBlock(s *c01Scope, n int) *c01Node {
+func (g *c01Gen) genBlock(s *c01Scope, n int) *c01Node { return g.genBlockWith(s, n, nil, nil) }
+
+// genBlockWith: a block whose first statements come from `pre` and whose last from `post`, both
+// generated in the block's own scope (so what `pre` declares is what the other statements see).
+func (g *c01Gen) genBlockWith(s *c01Scope, n int, pre, post func(c *c01Scope) []*c01Node) *c01Node {
 	c := s.child()
 	out := []*c01Node{}
+
+	if pre != nil {
+		out = append(out, pre(c)...)
+	}
 
 	for i := 0; i < n && g.budget > 0; i++ {
 		out = append(out, g.genStmt(c)...)
 	}
 
+	if post != nil {
+		out = append(out, post(c)...)
+	}
+
 	return c01Seq(out...)
+}
+
+// genShadow: the statements `[<use of x>;] x := <init>` for an integer variable x of an enclosing
+// scope — a declaration that HIDES x for the rest of the block.  The initializer (and the optional
+// statement before it) still mean the outer x; afterwards the scope resolves the name to the new
+// variable.  Returns nil when the scope has no candidate.
+func (g *c01Gen) genShadow(c *c01Scope) []*c01Node {
+	cands := []int{}
+
+	for i, v := range c.vars {
+		if v.ty.sort == 'i' && !v.ro && i >= c.frozen && !c.isResult(v) {
+			cands = append(cands, i)
+		}
+	}
+
+	if len(cands) == 0 || c.inDefer {
+		return nil
+	}
+
+	i := cands[g.pick(len(cands))]
+
+	// now and then: hide a variable that a closure in scope mentions, and call the closure there
+	var clo *c01Var
+
+	if g.chance(0.7) {
+		type pair struct {
+			i int
+			f *c01Var
+		}
+
+		prefs := []pair{}
+
+		for _, f := range c.vars {
+			if f.ty.sort != 'F' {
+				continue
+			}
+
+			for _, ci := range cands {
+				for _, r := range g.cloReads[f] {
+					if r == c.vars[ci] {
+						prefs = append(prefs, pair{ci, f})
+					}
+				}
+			}
+		}
+
+		if len(prefs) > 0 {
+			p := prefs[g.pick(len(prefs))]
+			i, clo = p.i, p.f
+		}
+	}
+
+	outer := c.vars[i]
+	k := outer.ty.kind
+	out := []*c01Node{}
+
+	if g.chance(0.5) {
+		// the outer variable is read in the block BEFORE the name is re-declared
+		if g.chance(0.5) {
+			out = append(out, &c01Node{op: "println", args: []*c01Node{{op: "slit", s: "o"}, c01VarN(outer)}})
+		} else {
+			out = append(out, g.declare(c, outer.ty, &c01Node{op: "bin", bop: "add", args: []*c01Node{c01VarN(outer), c01Lit(int64(1 + g.pick(3)))}}, false))
+		}
+	}
+
+	var init *c01Node
+
+	if g.chance(0.5) {
+		// x := x + <e>   (the initializer reads the outer x)
+		init = &c01Node{op: "bin", bop: []string{"add", "sub", "mul"}[g.pick(3)], args: []*c01Node{c01VarN(outer), g.genInt(c, k, 1)}}
+	} else {
+		init = g.nonConstExpr(c, k, 2)
+	}
+
+	if k != "int" {
+		init = &c01Node{op: "conv", kind: k, args: []*c01Node{init}}
+	}
+
+	root := outer
+	if root.alias != nil {
+		root = root.alias
+	}
+
+	g.nextVar++
+	inner := &c01Var{id: g.nextVar, ty: outer.ty, alias: root}
+	c.vars[i] = inner
+
+	out = append(out, &c01Node{op: "decl", x: inner, args: []*c01Node{init}})
+
+	if clo != nil {
+		args := []*c01Node{c01VarN(clo)}
+		if clo.ty.sig == 1 {
+			args = append(args, g.genInt(c, "int", 1))
+		}
+
+		out = append(out, &c01Node{op: "println", args: []*c01Node{{op: "slit", s: "c"}, {op: "callv", args: args}}})
+	}
+
+	return out
+}
+
+func (s *c01Scope) isResult(v *c01Var) bool {
+	for _, r := range s.fn.results {
+		if r == v {
+			return true
+		}
+	}
+
+	return false
+}
+
+// loopPre: what a loop body may start with (a shadowing declaration, now and then).
+func (g *c01Gen) loopPre() func(c *c01Scope) []*c01Node {
+	if !g.chance(0.2) {
+		return nil
+	}
+
+	return g.genShadow
 }
 
 func (g *c01Gen) genStmt(s *c01Scope) []*c01Node {
@@ -144,7 +274,12 @@ func (g *c01Gen) genStmt(s *c01Scope) []*c01Node {
 			els = g.genBlock(s, 1+g.pick(2))
 		}
 
-		return []*c01Node{{op: "ite", args: []*c01Node{g.genBool(s, 2), g.genBlock(s, 1+g.pick(3)), els}}}
+		var pre func(c *c01Scope) []*c01Node
+		if g.chance(0.06) {
+			pre = g.genShadow
+		}
+
+		return []*c01Node{{op: "ite", args: []*c01Node{g.genBool(s, 2), g.genBlockWith(s, 1+g.pick(3), pre, nil), els}}}
 	case c < 19 && !deep && !s.inDefer && len(s.loops) < 2:
 		return g.genLoop(s)
 	case c < 20 && !deep:
@@ -243,7 +378,7 @@ func (g *c01Gen) genLoop(s *c01Scope) []*c01Node {
 		loop.lit = itoa(int(n))
 	}
 
-	body := g.genBlock(c, 1+g.pick(3))
+	body := g.genBlockWith(c, 1+g.pick(3), g.loopPre(), nil)
 
 	switch loop.s {
 	case "counter":
@@ -260,7 +395,29 @@ func (g *c01Gen) genLoop(s *c01Scope) []*c01Node {
 	return append(pre, loop)
 }
 
-func (g *c01Gen) genRange(s *c01Scope, sl *c01Var) []*c01Node {
+func (g *c01Gen) genRange(s *c01Scope, sl *c01Var) []*c01Node { return g.genRangeWith(s, sl, nil) }
+
+// callScanner: `fmt.Println(fK(…))` for a function that returns from inside a range loop.
+func (g *c01Gen) callScanner(c *c01Scope) []*c01Node {
+	cands := []*c01Func{}
+	for _, f := range g.callable {
+		if f.scanner && f != c.fn {
+			cands = append(cands, f)
+		}
+	}
+
+	if len(cands) == 0 || c.inDefer {
+		return nil
+	}
+
+	f := cands[g.pick(len(cands))]
+
+	return []*c01Node{{op: "println", args: []*c01Node{{op: "slit", s: "s"}, {op: "call", f: f, args: g.genArgs(c, f, 2)}}}}
+}
+
+// genRangeWith: a range loop over slice variable sl; `post` (if any) supplies the last statements
+// of the body.  Without one, the body now and then ends with a call of a "scanner" function.
+func (g *c01Gen) genRangeWith(s *c01Scope, sl *c01Var, post func(c *c01Scope) []*c01Node) []*c01Node {
 	g.nextLbl++
 	loop := &c01Node{op: "range", lbl: g.nextLbl}
 	c := s.child()
@@ -281,8 +438,12 @@ func (g *c01Gen) genRange(s *c01Scope, sl *c01Var) []*c01Node {
 		c.vars = append(c.vars, vv)
 	}
 
+	if post == nil && g.chance(0.5) {
+		post = g.callScanner
+	}
+
 	loop.x, loop.x2 = iv, vv
-	loop.args = []*c01Node{c01VarN(sl), g.genBlock(c, 1+g.pick(3))}
+	loop.args = []*c01Node{c01VarN(sl), g.genBlockWith(c, 1+g.pick(3), g.loopPre(), post)}
 
 	return []*c01Node{loop}
 }
